@@ -29,7 +29,9 @@ RULE = ("periodic structures with 1-3 planted rigid copies (per-atom perturbatio
         "(thorough: the complete grid x 5 poses x 11 patterns x 4 cell kinds); decoys: mirror images (chiral patterns "
         "only; a mirror image of an achiral pattern is planted as an occurrence), near misses with one distance off by "
         "3-5 atol, lone same-element atoms (occurrences for the one-atom pattern). Every structure is validated by an "
-        "independent brute-force enumeration. Argument space: atol in {0.001, 0.01, 0.05, 0.2} (copies and decoys scale with "
+        "independent brute-force enumeration. Patterns incl. CH2FCl- and CH3F-like ones whose FIRST atoms are symmetry-related "
+        "(only some orderings rotatable); atoms listed copy by copy, slot-major (all first atoms, then all second ...), "
+        "reversed or randomly permuted. Argument space: atol in {0.001, 0.01, 0.05, 0.2} (copies and decoys scale with "
         "it), 35 % of the random and 25 % of the grid cases searched WITH a valid explicit hint triple (partial hints, all "
         "three, index 0 in every position; copies then perturbed by atol/40), 20 % also called with "
         "return_positions_and_quats=False; sequences in one process (orthorhombic cell -> triclinic cell with the same "
@@ -350,6 +352,7 @@ def run(ctx, oracle_only=False, scale=1):
             ctx.count(t)
         ctx.count("atol:%g" % atol)
         ctx.count("hints:" + hint_kind(hints))
+        ctx.count("listing:" + str(case["info"].get("listing", "copy-by-copy")))
         if bad:
             ctx.fail(bad, inp, observed=res.get("ok", res.get("err")), required="reported key set == planted key set, each once",
                      tags=tags_of(case) + ["hints:" + hint_kind(hints)])
@@ -363,6 +366,27 @@ def run(ctx, oracle_only=False, scale=1):
             if pbad:
                 ctx.fail(pbad, pin, observed=pres.get("ok", pres.get("err")),
                          required="reported key set == planted key set, each once", tags=tags_of(case) + ["plain-call"])
+    # patterns whose first atoms are symmetry-related (some orderings rotatable, some only mirror images), >= 2 copies,
+    # atoms listed slot-major / randomly / reversed: the grouping of candidate tuples must not depend on the order in
+    # which the start atoms are met
+    made = 0
+    while made < ctx.n(12, 90) * scale:
+        pname = list(g.MIRROR_FIRST)[made % len(g.MIRROR_FIRST)]
+        atol = rng.choice(ATOLS)
+        case = g.mirror_first_case(rng, atol=atol, pname=pname, mode=["slot-major", "slot-major", "random"][made % 3])
+        if case is None:
+            ctx.count("generator:rejected")
+            continue
+        made += 1
+        inp = inp_of(case, atol=atol, seed=rng.randrange(1 << 30))
+        res, bad = one(inp)
+        ctx.case(inp, nontrivial=True)
+        ctx.count("stream:symmetric-first-atoms:" + case["info"]["listing"])
+        if bad:
+            ctx.fail(bad, inp, observed=res.get("ok", res.get("err")), required="reported key set == planted key set, each once",
+                     tags=tags_of(case) + ["listing:" + case["info"]["listing"]])
+        elif len(pairs) < n_tie + 10 and "ok" in res and rng.random() < 0.5:
+            pairs.append((inp, case, res))
     sequences(ctx, rng, ctx.n(24, 200) * scale)
     distorted(ctx, rng, ctx.n(60, 600) * scale, pairs, n_tie)
     # boundary grid: complete in the thorough tier, a random sample in the quick tier
